@@ -24,7 +24,7 @@ type ImplicitCase struct {
 var leafOpts = sg.Opts{MaxDepth: 1, MaxChildren: 1, MaxLeafTok: 40, MinDur: 1_000_000, MaxDur: 20_000_000_000}
 
 func genImplicit(t *rapid.T) ImplicitCase {
-	return ImplicitCase{Leaf: sg.GenLeaf(t, leafOpts), Callers: rapid.IntRange(2, 8).Draw(t, "callers"), Rounds: 16}
+	return ImplicitCase{Leaf: sg.GenLeaf(t, leafOpts), Callers: rapid.IntRange(2, 8).Draw(t, "callers"), Rounds: 48}
 }
 
 func checkImplicit(c ImplicitCase, o *vf.Obs) error {
